@@ -782,6 +782,32 @@ pub fn cipher_check(a: &Args) -> Report {
         }
       }
     }
+    // ... and reports of the same measurement produced on OTHER threads, each the first thing its
+    // thread does (a nonce built from per-process and per-thread state coincides exactly there)
+    if src == "local" {
+      let hs: Vec<_> = (0..3u8)
+        .map(|k| {
+          let (m2, e2) = (m.clone(), e.clone());
+          std::thread::spawn(move || {
+            let mg = sta_rs::MessageGenerator::new(sta_rs::SingleMeasurement::new(&m2), t, &e2);
+            let mut rnd = [0u8; 32];
+            mg.sample_local_randomness(&mut rnd);
+            let aux: Vec<u8> = (0..40u8).map(|i| i.wrapping_mul(13).wrapping_add(k * 57 + 1)).collect();
+            sta_rs::Message::generate(&mg, &rnd, Some(sta_rs::AssociatedData::new(&aux)))
+              .ok()
+              .map(|msg| (aux, rnd, msg.to_bytes(), msg.share.to_bytes(), msg.ciphertext.to_bytes(), msg.tag.clone()))
+          })
+        })
+        .collect();
+      for h in hs {
+        if let Ok(Some((aux, rnd, bytes, sb, ct, tag))) = h.join() {
+          cl.push(RealClient {
+            cfg: ClientCfg { m: m.clone(), e: e.clone(), t, aux: Some(aux), src: "local".into() },
+            share_bytes: sb, ct, tag, key: None, rnd, msg_bytes: bytes,
+          });
+        }
+      }
+    }
     if cl.len() < nrep {
       continue;
     }
